@@ -19,13 +19,24 @@ gvars == <<m>>
 SeqsUpTo(S, n) == UNION { [1..j -> S] : j \in 0..n }
 
 ValidAtt(a) == (a.pl = "bin" => ~a.known)          \* no known MIME type stands for arbitrary bytes
-NoAtt == [p |-> FALSE, fn |-> "none", known |-> FALSE, pl |-> "bin", cte |-> "base64"]
-AttVals == { a \in [p : {TRUE}, fn : FnKinds, known : BOOLEAN, pl : Payloads, cte : AttCTEs] : ValidAtt(a) }
-AttSmall == { [p |-> TRUE, fn |-> "ascii",   known |-> TRUE,  pl |-> "csv",  cte |-> "base64"],
-              [p |-> TRUE, fn |-> "none",    known |-> TRUE,  pl |-> "txt",  cte |-> "qp"],
-              [p |-> TRUE, fn |-> "rfc2231", known |-> TRUE,  pl |-> "docx", cte |-> "base64"],
-              [p |-> TRUE, fn |-> "rfc2047", known |-> FALSE, pl |-> "html", cte |-> "base64"],
-              [p |-> TRUE, fn |-> "none",    known |-> FALSE, pl |-> "bin",  cte |-> "base64"] }
+NoAtt == [p |-> FALSE, fn |-> "none", ns |-> "plain", nx |-> "ext", known |-> FALSE, pl |-> "bin", cte |-> "base64"]
+BaseAtt == [p |-> TRUE, fn |-> "ascii", ns |-> "plain", nx |-> "ext", known |-> TRUE, pl |-> "csv", cte |-> "base64"]
+\* the attachment dimension is itself a cover (the product has ~10^4 values):
+AttVals ==
+    LET A1 == { [BaseAtt EXCEPT !.pl = x, !.nx = y] : x \in DocPayloads, y \in NameExts }        \* type x extension
+        A2 == { [BaseAtt EXCEPT !.fn = f, !.ns = s] : f \in FnKinds \ {"none"}, s \in NameShapes } \* form x shape
+        A3 == { [BaseAtt EXCEPT !.fn = "none", !.pl = x, !.known = k] : x \in Payloads, k \in BOOLEAN }
+        A4 == { [BaseAtt EXCEPT !.known = FALSE, !.pl = x, !.nx = y] : x \in Payloads, y \in {"ext", "noext"} }
+        A5 == { [BaseAtt EXCEPT !.cte = "qp", !.pl = x, !.fn = f] : x \in Payloads, f \in {"ascii", "rfc2231"} }
+        A6 == { [BaseAtt EXCEPT !.ns = s, !.nx = y, !.pl = x] : s \in {"slash", "drive", "dot"}, y \in {"noext", "wrongext"},
+                                                               x \in {"ods", "pdf"} }
+    IN { a \in A1 \cup A2 \cup A3 \cup A4 \cup A5 \cup A6 : ValidAtt(a) }
+AttSmall == { BaseAtt,
+              [BaseAtt EXCEPT !.fn = "none", !.pl = "txt", !.cte = "qp"],
+              [BaseAtt EXCEPT !.fn = "rfc2231", !.ns = "slash", !.pl = "docx"],
+              [BaseAtt EXCEPT !.fn = "rfc2047", !.ns = "drive", !.known = FALSE, !.pl = "html"],
+              [BaseAtt EXCEPT !.nx = "noext", !.pl = "ods"],
+              [BaseAtt EXCEPT !.fn = "none", !.known = FALSE, !.pl = "bin"] }
 
 Dims == {"subj", "from", "to", "cc", "bcc", "rt", "date", "mid", "irt", "bs", "bp", "bh", "pf",
          "att1", "att2", "nest", "ser"}
@@ -94,8 +105,8 @@ BaseRich ==
       cc |-> <<"atom">>, bcc |-> <<"none">>, rt |-> <<"quoted">>,
       date |-> [p |-> TRUE, z |-> "east", wd |-> TRUE], mid |-> "plain", irt |-> "plain",
       body |-> [s |-> "altrel", pc |-> "utf8", pe |-> "qp", hc |-> "latin1", he |-> "base64", pf |-> TRUE],
-      att1 |-> [p |-> TRUE, fn |-> "ascii", known |-> TRUE, pl |-> "csv", cte |-> "base64"],
-      att2 |-> [p |-> TRUE, fn |-> "rfc2231", known |-> FALSE, pl |-> "bin", cte |-> "base64"],
+      att1 |-> BaseAtt,
+      att2 |-> [BaseAtt EXCEPT !.fn = "rfc2231", !.known = FALSE, !.pl = "bin"],
       nest |-> FALSE, ser |-> "handcrlf" ]
 
 Bases == {BaseSimple, BaseRich}
